@@ -190,7 +190,7 @@ func (r *replayer) errCase(c ErrCase) {
 						r.sum.Stats["the faulty run succeeds (C01's subject)"]++
 						continue
 					}
-					if m.Env == "none" && !strings.Contains(rerr.Error(), "Zq") {
+					if m.Env == "none" && !strings.Contains(rerr.Error(), "cannot fetch Zq") {
 						// compiled without an environment type another operation of the tree may fail first (the literals
 						// of call arguments are not retyped there): only the failure that names the missing member is the fault
 						r.sum.Stats["untyped mode: another operation failed first"]++
